@@ -443,10 +443,10 @@ Proof.
   repeat split; auto. intros s Hs. apply normed_length; auto.
 Qed.
 
-(* calculate's normalize on a non-empty feasible list *)
-Lemma calc_normalize nobjs ref set c st0 : accepted nobjs ref set c st0 -> feasible set <> [] ->
-  normalize nobjs st0 (feasible set) (Some (i_min c)) (Some (i_max c)) =
-  Ok (Some (i_min c, i_max c), writes (normed c) st0 (feasible set)).
+(* calculate's normalize calls, starting from ANY content of the normalized_objectives store *)
+Lemma calc_normalize nobjs ref set c st0 st : accepted nobjs ref set c st0 -> feasible set <> [] ->
+  normalize nobjs st (feasible set) (Some (i_min c)) (Some (i_max c)) =
+  Ok (Some (i_min c, i_max c), writes (normed c) st (feasible set)).
 Proof.
   intros Hacc Hne. destruct (accepted_facts _ _ _ _ _ Hacc) as [A [B [C [D [E [F G]]]]]].
   unfold normed. rewrite <- (feasible_idem set) at 2.
@@ -454,14 +454,51 @@ Proof.
   rewrite feasible_idem. intros s Hs. apply (proj1 (acc_wf _ _ _ _ _ Hacc)). apply in_or_app. now right.
 Qed.
 
-Lemma calc_store nobjs ref set c st0 x : accepted nobjs ref set c st0 -> In x (feasible ref ++ feasible set) ->
-  store_get (writes (normed c) st0 (feasible set)) (s_sid x) = Ok (normed c x).
+(* normalize(self.reference_set, self.minimum, self.maximum) of the repaired code *)
+Lemma renorm_ok nobjs ref set c st0 st : accepted nobjs ref set c st0 ->
+  renorm_ref true nobjs c st = Ok (writes (normed c) st (feasible ref)).
 Proof.
-  intros Hacc Hx. destruct (accepted_facts _ _ _ _ _ Hacc) as [A [B _]]. rewrite B.
-  apply (store_both (normed c) nobjs); [exact (acc_wf _ _ _ _ _ Hacc) | exact Hx].
+  intros Hacc. destruct (accepted_facts _ _ _ _ _ Hacc) as [A [B [C [D [E [F G]]]]]].
+  unfold renorm_ref. rewrite A. unfold normed. rewrite <- (feasible_idem ref) at 2.
+  rewrite normalize_explicit_ok; auto.
+  rewrite feasible_idem. intros s Hs. apply (proj1 (acc_wf _ _ _ _ _ Hacc)). apply in_or_app. now left.
 Qed.
 
-(* ---------- epsilon indicator = textbook ---------- *)
+(* after the two normalize calls EVERY feasible object of either set carries its own
+   normalised vector, whatever the store contained before *)
+Lemma calc_store nobjs ref set c st0 st x : accepted nobjs ref set c st0 -> In x (feasible ref ++ feasible set) ->
+  store_get (writes (normed c) (writes (normed c) st (feasible ref)) (feasible set)) (s_sid x) = Ok (normed c x).
+Proof.
+  intros Hacc Hx. apply (store_both (normed c) nobjs); [exact (acc_wf _ _ _ _ _ Hacc) | exact Hx].
+Qed.
+
+(* ---------- epsilon indicator = textbook, from ANY prior store ---------- *)
+Theorem eps_calc_unfold nobjs dirs ref set c st0 st : accepted nobjs ref set c st0 -> length dirs = nobjs ->
+  exists st', eps_calculate true nobjs dirs c st set =
+  Ok (match feasible set with
+      | [] => XInf
+      | _ => XFin (eps_textbook dirs (map (normed c) (feasible ref)) (map (normed c) (feasible set)))
+      end, st').
+Proof.
+  intros Hacc Hd. destruct (accepted_facts _ _ _ _ _ Hacc) as [A [B [C [D [E [F G]]]]]].
+  unfold eps_calculate.
+  destruct (feasible set) as [|s0 r0] eqn:Ef; [eexists; reflexivity|].
+  rewrite <- Ef in *. assert (Hne : feasible set <> []) by (rewrite Ef; discriminate).
+  rewrite (renorm_ok _ _ _ _ _ st Hacc). cbn [bind].
+  rewrite (calc_normalize _ _ _ _ _ _ Hacc Hne). cbn [bind snd]. rewrite A.
+  rewrite (mapM_ok_map _ (fun s1 => lmin (map (fun s2 => lmax (dev dirs (normed c s1) (normed c s2))) (feasible set)))).
+  - cbn [bind]. rewrite qmaxl_ok by (intro Em; apply map_eq_nil in Em; contradiction).
+    cbn [bind]. eexists. do 2 f_equal. unfold eps_textbook. rewrite map_map. do 2 apply f_equal.
+    apply map_ext. intro x. now rewrite map_map.
+  - intros s1 Hs1. cbv beta.
+    rewrite (calc_store nobjs ref set c st0 st s1 Hacc) by (apply in_or_app; now left). cbn [bind].
+    rewrite (mapM_ok_map _ (fun s2 => lmax (dev dirs (normed c s1) (normed c s2)))).
+    + cbn [bind]. apply qminl_ok. intro Em. apply map_eq_nil in Em. contradiction.
+    + intros s2 Hs2. cbv beta.
+      rewrite (calc_store nobjs ref set c st0 st s2 Hacc) by (apply in_or_app; now right). cbn [bind].
+      apply eps_inner_ok; auto; try (apply G; apply in_or_app; auto). exact (acc_nobjs _ _ _ _ _ Hacc).
+Qed.
+
 Theorem eps_unfold nobjs dirs ref set c st0 : accepted nobjs ref set c st0 -> length dirs = nobjs ->
   eps_indicator nobjs dirs ref set =
   Ok (match feasible set with
@@ -469,22 +506,8 @@ Theorem eps_unfold nobjs dirs ref set c st0 : accepted nobjs ref set c st0 -> le
       | _ => XFin (eps_textbook dirs (map (normed c) (feasible ref)) (map (normed c) (feasible set)))
       end).
 Proof.
-  intros Hacc Hd. destruct (accepted_facts _ _ _ _ _ Hacc) as [A [B [C [D [E [F G]]]]]].
-  unfold eps_indicator. rewrite (acc_make _ _ _ _ _ Hacc). cbn [bind fst snd]. unfold eps_calculate.
-  destruct (feasible set) as [|s0 r0] eqn:Ef; [reflexivity|].
-  rewrite <- Ef in *. assert (Hne : feasible set <> []) by (rewrite Ef; discriminate).
-  rewrite (calc_normalize _ _ _ _ _ Hacc Hne). cbn [bind snd]. rewrite A.
-  rewrite (mapM_ok_map _ (fun s1 => lmin (map (fun s2 => lmax (dev dirs (normed c s1) (normed c s2))) (feasible set)))).
-  - cbn [bind]. rewrite qmaxl_ok by (intro Em; apply map_eq_nil in Em; contradiction).
-    cbn [bind fst]. unfold eps_textbook. rewrite map_map. do 3 apply f_equal.
-    apply map_ext. intro x. now rewrite map_map.
-  - intros s1 Hs1. cbv beta.
-    rewrite (calc_store nobjs ref set c st0 s1 Hacc) by (apply in_or_app; now left). cbn [bind].
-    rewrite (mapM_ok_map _ (fun s2 => lmax (dev dirs (normed c s1) (normed c s2)))).
-    + cbn [bind]. apply qminl_ok. intro Em. apply map_eq_nil in Em. contradiction.
-    + intros s2 Hs2. cbv beta.
-      rewrite (calc_store nobjs ref set c st0 s2 Hacc) by (apply in_or_app; now right). cbn [bind].
-      apply eps_inner_ok; auto; try (apply G; apply in_or_app; auto). exact (acc_nobjs _ _ _ _ _ Hacc).
+  intros Hacc Hd. unfold eps_indicator. rewrite (acc_make _ _ _ _ _ Hacc). cbn [bind fst snd].
+  destruct (eps_calc_unfold nobjs dirs ref set c st0 st0 Hacc Hd) as [st' E]. rewrite E. reflexivity.
 Qed.
 
 (* ---------- GD / IGD = textbook ingredients ---------- *)
@@ -506,6 +529,30 @@ Proof. induction l as [|a r IH]; [reflexivity|]. simpl. now rewrite IH. Qed.
 Lemma all_fin_inf {A} (l : list A) : l <> [] -> all_fin (map (fun _ => XInf) l) = None.
 Proof. destruct l; [congruence | reflexivity]. Qed.
 
+Theorem gd_calc_unfold nobjs ref set c st0 st : accepted nobjs ref set c st0 ->
+  exists st', gd_calculate true nobjs c st set =
+  Ok (match feasible set with
+      | [] => IInf
+      | _ => ITerms (gd_terms_textbook (map (normed c) (feasible ref)) (map (normed c) (feasible set)))
+                    (length (feasible set))
+      end, st').
+Proof.
+  intros Hacc. destruct (accepted_facts _ _ _ _ _ Hacc) as [A [B [C [D [E [F G]]]]]].
+  unfold gd_calculate.
+  destruct (feasible set) as [|s0 r0] eqn:Ef; [eexists; reflexivity|].
+  rewrite <- Ef in *. assert (Hne : feasible set <> []) by (rewrite Ef; discriminate).
+  rewrite (renorm_ok _ _ _ _ _ st Hacc). cbn [bind].
+  rewrite (calc_normalize _ _ _ _ _ _ Hacc Hne). cbn [bind snd]. rewrite A.
+  rewrite (mapM_ok_map _ (fun s => XFin (nsq (normed c s) (map (normed c) (feasible ref))))).
+  - cbn [bind]. rewrite <- (map_map (fun s => nsq (normed c s) (map (normed c) (feasible ref))) XFin).
+    rewrite all_fin_fin. eexists. unfold gd_terms_textbook. now rewrite map_map.
+  - intros s Hs. apply (nearest_sq_ok _ (normed c) s (feasible ref) nobjs); auto.
+    + apply (calc_store nobjs ref set c st0 st s Hacc). apply in_or_app. now right.
+    + intros t Ht. apply (calc_store nobjs ref set c st0 st t Hacc). apply in_or_app. now left.
+    + apply G. apply in_or_app. now right.
+    + intros t Ht. apply G. apply in_or_app. now left.
+Qed.
+
 Theorem gd_unfold nobjs ref set c st0 : accepted nobjs ref set c st0 ->
   gd_indicator nobjs ref set =
   Ok (match feasible set with
@@ -514,19 +561,34 @@ Theorem gd_unfold nobjs ref set c st0 : accepted nobjs ref set c st0 ->
                     (length (feasible set))
       end).
 Proof.
+  intros Hacc. unfold gd_indicator. rewrite (acc_make _ _ _ _ _ Hacc). cbn [bind fst snd].
+  destruct (gd_calc_unfold nobjs ref set c st0 st0 Hacc) as [st' E]. rewrite E. reflexivity.
+Qed.
+
+Theorem igd_calc_unfold nobjs ref set c st0 st : accepted nobjs ref set c st0 ->
+  exists st', igd_calculate true nobjs c st set =
+  Ok (match feasible set with
+      | [] => IInf
+      | _ => ITerms (gd_terms_textbook (map (normed c) (feasible set)) (map (normed c) (feasible ref)))
+                    (length (feasible ref))
+      end, st').
+Proof.
   intros Hacc. destruct (accepted_facts _ _ _ _ _ Hacc) as [A [B [C [D [E [F G]]]]]].
-  unfold gd_indicator. rewrite (acc_make _ _ _ _ _ Hacc). cbn [bind fst snd]. unfold gd_calculate.
-  destruct (feasible set) as [|s0 r0] eqn:Ef; [reflexivity|].
-  rewrite <- Ef in *. assert (Hne : feasible set <> []) by (rewrite Ef; discriminate).
-  rewrite (calc_normalize _ _ _ _ _ Hacc Hne). cbn [bind snd]. rewrite A.
-  rewrite (mapM_ok_map _ (fun s => XFin (nsq (normed c s) (map (normed c) (feasible ref))))).
-  - cbn [bind fst]. rewrite <- (map_map (fun s => nsq (normed c s) (map (normed c) (feasible ref))) XFin).
-    rewrite all_fin_fin. unfold gd_terms_textbook. now rewrite map_map.
-  - intros s Hs. apply (nearest_sq_ok _ (normed c) s (feasible ref) nobjs); auto.
-    + apply (calc_store nobjs ref set c st0 s Hacc). apply in_or_app. now right.
-    + intros t Ht. apply (calc_store nobjs ref set c st0 t Hacc). apply in_or_app. now left.
-    + apply G. apply in_or_app. now right.
-    + intros t Ht. apply G. apply in_or_app. now left.
+  unfold igd_calculate. rewrite (renorm_ok _ _ _ _ _ st Hacc). cbn [bind].
+  destruct (feasible set) as [|s0 r0] eqn:Ef.
+  - rewrite normalize_nil. cbn [bind snd]. rewrite A.
+    rewrite (mapM_ok_map _ (fun _ => XInf)) by reflexivity. cbn [bind].
+    rewrite (all_fin_inf (feasible ref) C). eexists. reflexivity.
+  - rewrite <- Ef in *. assert (Hne : feasible set <> []) by (rewrite Ef; discriminate).
+    rewrite (calc_normalize _ _ _ _ _ _ Hacc Hne). cbn [bind snd]. rewrite A.
+    rewrite (mapM_ok_map _ (fun s => XFin (nsq (normed c s) (map (normed c) (feasible set))))).
+    + cbn [bind]. rewrite <- (map_map (fun s => nsq (normed c s) (map (normed c) (feasible set))) XFin).
+      rewrite all_fin_fin. eexists. unfold gd_terms_textbook. now rewrite map_map.
+    + intros s Hs. apply (nearest_sq_ok _ (normed c) s (feasible set) nobjs); auto.
+      * apply (calc_store nobjs ref set c st0 st s Hacc). apply in_or_app. now left.
+      * intros t Ht. apply (calc_store nobjs ref set c st0 st t Hacc). apply in_or_app. now right.
+      * apply G. apply in_or_app. now left.
+      * intros t Ht. apply G. apply in_or_app. now right.
 Qed.
 
 Theorem igd_unfold nobjs ref set c st0 : accepted nobjs ref set c st0 ->
@@ -537,22 +599,8 @@ Theorem igd_unfold nobjs ref set c st0 : accepted nobjs ref set c st0 ->
                     (length (feasible ref))
       end).
 Proof.
-  intros Hacc. destruct (accepted_facts _ _ _ _ _ Hacc) as [A [B [C [D [E [F G]]]]]].
-  unfold igd_indicator. rewrite (acc_make _ _ _ _ _ Hacc). cbn [bind fst snd]. unfold igd_calculate.
-  destruct (feasible set) as [|s0 r0] eqn:Ef.
-  - rewrite normalize_nil. cbn [bind snd]. rewrite A.
-    rewrite (mapM_ok_map _ (fun _ => XInf)) by reflexivity. cbn [bind fst].
-    now rewrite (all_fin_inf (feasible ref) C).
-  - rewrite <- Ef in *. assert (Hne : feasible set <> []) by (rewrite Ef; discriminate).
-    rewrite (calc_normalize _ _ _ _ _ Hacc Hne). cbn [bind snd]. rewrite A.
-    rewrite (mapM_ok_map _ (fun s => XFin (nsq (normed c s) (map (normed c) (feasible set))))).
-    + cbn [bind fst]. rewrite <- (map_map (fun s => nsq (normed c s) (map (normed c) (feasible set))) XFin).
-      rewrite all_fin_fin. unfold gd_terms_textbook. now rewrite map_map.
-    + intros s Hs. apply (nearest_sq_ok _ (normed c) s (feasible set) nobjs); auto.
-      * apply (calc_store nobjs ref set c st0 s Hacc). apply in_or_app. now left.
-      * intros t Ht. apply (calc_store nobjs ref set c st0 t Hacc). apply in_or_app. now right.
-      * apply G. apply in_or_app. now left.
-      * intros t Ht. apply G. apply in_or_app. now right.
+  intros Hacc. unfold igd_indicator. rewrite (acc_make _ _ _ _ _ Hacc). cbn [bind fst snd].
+  destruct (igd_calc_unfold nobjs ref set c st0 st0 Hacc) as [st' E]. rewrite E. reflexivity.
 Qed.
 
 (* ---------- spacing = textbook ---------- *)
@@ -1315,23 +1363,43 @@ Proof. split; vm_compute; reflexivity. Qed.
 Lemma peq_sum_length l l' : peq l l' -> qsum l == qsum l' /\ length l = length l'.
 Proof. intro H. split; [exact (qsum_peq l l' H) | exact (length_peq l l' H)]. Qed.
 
-(* ---------- a history dependence the model predicts (outside the statement of C16) ----------
-   The reference set is normalised ONCE, in the constructor, onto the solution objects.  If,
-   between construction and calculate, any other call re-normalises one of those objects
-   with other bounds (constructing a second indicator whose reference set shares an object;
-   Hypervolume.calculate on a set containing reference objects, which also inverts them),
-   calculate reads the overwritten normalized_objectives: the value is no longer the textbook
-   value.  Witness: GD / IGD / eps of the same reference set and approximation set, computed
-   on a fresh store and after the construction of a second indicator that shares object 100. *)
+(* ---------- history independence (repaired code) and the pre-repair counterexample ----------
+   Before fixes/acef3b8.diff the reference set was normalised ONCE, in the constructor, onto
+   the solution objects.  If, between construction and calculate, any other call re-normalised
+   one of those objects with other bounds (constructing a second indicator whose reference
+   set shares an object; Hypervolume.calculate on a set containing reference objects),
+   calculate read the overwritten normalized_objectives.  The repaired code re-normalises the
+   reference objects at the start of every calculate: eps_calc_unfold / gd_calc_unfold /
+   igd_calc_unfold hold for EVERY prior store.  Witness for the pre-repair variant (rn =
+   false): GD / IGD of the same arguments on a fresh store and after the construction of a
+   second indicator that shares object 100. *)
 Definition hd_ref : list isol := [ISol 100 [0;1] 0; ISol 101 [1#2;1#4] 0; ISol 102 [1;0] 0].
 Definition hd_ref2 : list isol := [ISol 100 [0;1] 0; ISol 103 [-4#1;5] 0].
 Definition hd_set : list isol := [ISol 0 [1#4;3#4] 0; ISol 1 [3#4;1#2] 0].
 Definition after_second_constructor {A} (f : ind_state -> store -> res (A * store)) : res A :=
   do c1 <- ind_make 2 [] hd_ref; do c2 <- ind_make 2 (snd c1) hd_ref2; do r <- f (fst c1) (snd c2); Ok (fst r).
 
-Example shared_reference_objects_refuted :
+Example prerepair_shared_reference_objects_refuted :
   terms_are (gd_indicator 2 hd_ref hd_set) [1#8; 1#8] 2 = true /\
-  terms_are (after_second_constructor (fun c st => gd_calculate 2 c st hd_set)) [5#16; 1#8] 2 = true /\
+  terms_are (after_second_constructor (fun c st => gd_calculate false 2 c st hd_set)) [5#16; 1#8] 2 = true /\
+  terms_are (after_second_constructor (fun c st => gd_calculate true 2 c st hd_set)) [1#8; 1#8] 2 = true /\
   terms_are (igd_indicator 2 hd_ref hd_set) [1#8; 1#8; 5#16] 3 = true /\
-  terms_are (after_second_constructor (fun c st => igd_calculate 2 c st hd_set)) [5#16; 1#8; 5#16] 3 = true.
+  terms_are (after_second_constructor (fun c st => igd_calculate false 2 c st hd_set)) [5#16; 1#8; 5#16] 3 = true /\
+  terms_are (after_second_constructor (fun c st => igd_calculate true 2 c st hd_set)) [1#8; 1#8; 5#16] 3 = true.
 Proof. repeat split; vm_compute; reflexivity. Qed.
+
+(* calculate's value does not depend on what the normalized_objectives attributes held before *)
+Theorem calculate_store_independent nobjs dirs ref set c st0 st1 st2 :
+  accepted nobjs ref set c st0 -> length dirs = nobjs ->
+  (exists v s1 s2, eps_calculate true nobjs dirs c st1 set = Ok (v, s1) /\ eps_calculate true nobjs dirs c st2 set = Ok (v, s2)) /\
+  (exists v s1 s2, gd_calculate true nobjs c st1 set = Ok (v, s1) /\ gd_calculate true nobjs c st2 set = Ok (v, s2)) /\
+  (exists v s1 s2, igd_calculate true nobjs c st1 set = Ok (v, s1) /\ igd_calculate true nobjs c st2 set = Ok (v, s2)).
+Proof.
+  intros Hacc Hd. split; [|split].
+  - destruct (eps_calc_unfold nobjs dirs ref set c st0 st1 Hacc Hd) as [s1 E1].
+    destruct (eps_calc_unfold nobjs dirs ref set c st0 st2 Hacc Hd) as [s2 E2]. eauto.
+  - destruct (gd_calc_unfold nobjs ref set c st0 st1 Hacc) as [s1 E1].
+    destruct (gd_calc_unfold nobjs ref set c st0 st2 Hacc) as [s2 E2]. eauto.
+  - destruct (igd_calc_unfold nobjs ref set c st0 st1 Hacc) as [s1 E1].
+    destruct (igd_calc_unfold nobjs ref set c st0 st2 Hacc) as [s2 E2]. eauto.
+Qed.
